@@ -173,6 +173,23 @@ Example C12_ex_global_mix :
   /\ final_dir git_value_globals (s2l "/w") [s2l "-c"; s2l "k=v"; s2l "-C"; s2l "sub"] false = s2l "/w/sub".
 Proof. vm_compute. repeat split. Qed.
 
+(* resolve_command_base_dir consults the process working directory only while no absolute -C has been seen:
+   (a) with a known working directory d the result is the one obtained by walking the -C options from d;
+   (b) once a base is known (an absolute -C came first) the working directory — even a removed one — does not matter.
+   C12_global_args_end_in_root takes base as a parameter and needs no hypothesis about the working directory. *)
+Theorem C12_base_dir_cwd_only_when_needed :
+  (forall d ga, resolve_command_base_dir (Some d) ga = resolve_base_from (Some d) (Some d) ga) /\
+  (forall cwd1 cwd2 ga b, resolve_base_from cwd1 (Some b) ga = resolve_base_from cwd2 (Some b) ga).
+Proof. split; [exact resolve_base_cwd | exact resolve_base_known]. Qed.
+Print Assumptions C12_base_dir_cwd_only_when_needed.
+
+Example C12_ex_base_dir :
+  resolve_command_base_dir None [s2l "-C"; s2l "/w"; s2l "-C"; s2l "sub"; s2l "status"] = Some (s2l "/w/sub") /\
+  resolve_command_base_dir None [s2l "-C"; s2l "sub"] = None /\
+  resolve_command_base_dir None [s2l "-c"; s2l "k=v"] = None /\
+  resolve_command_base_dir (Some (s2l "/d")) [s2l "-C"; s2l "sub"; s2l "-C"; s2l ".."] = Some (s2l "/d/sub/..").
+Proof. vm_compute. repeat split. Qed.
+
 Theorem C12_no_pager : forall ga, In gen_exec_global_opt (global_args_for_exec ga).
 Proof. exact exec_globals_no_pager. Qed.
 Print Assumptions C12_no_pager.
